@@ -969,3 +969,70 @@ def c17_corpus(seed, tier, walks_by_kind):
             ops += [{"op": "timer_stats", "g": g, "var": True}, {"op": "debug", "g": g}]
         S.case("JitterRng debug walk #%d" % wi, ops)
     return S
+
+
+# ---------------------------------------------------------------- C19
+def c19_corpus(seed, tier, scheds):
+    """scheds: complete interleavings from TLC (MC_Instances_gen): lists of (g, thread, op)"""
+    rng = random.Random(seed * 1000003 + 19)
+    S = Sched()
+    kinds = ALL_SEEDABLE + ["JitterRng"]
+    pairs = [(k, k) for k in kinds] + [(kinds[i], kinds[(i + 7) % len(kinds)]) for i in range(len(kinds))]
+    n = 60 if tier == "quick" else 1500
+    pick = rng.sample(scheds, min(n, len(scheds)))
+    for ci, sc in enumerate(pick):
+        k1, k2 = pairs[ci % len(pairs)]
+        kind = {1: k1, 2: k2}
+        same_seed = (k1 == k2 and ci % 2 == 0)
+        seeds = {}
+        for g in (1, 2):
+            if kind[g] != "JitterRng":
+                mode = rng.choice(["rand", "rand", "zero", "u64zero"])
+                seeds[g] = (mode, [rng.getrandbits(8) for _ in range(SEEDLEN[kind[g]])])
+        if same_seed and k1 != "JitterRng":
+            seeds[2] = seeds[1]
+        # choose the output op of every step of every instance up front
+        outs = {g: [rng.choice([("next_u32", 0), ("next_u64", 0), ("fill_bytes", rng.choice([0, 1, 5, 8, 13, 31]))]) for _ in range(8)] for g in (1, 2)}
+        ops = []
+        tsc = {g: timer_script(random.Random(seed + 77 * ci + (0 if same_seed else g)), 600) for g in (1, 2)}
+        # twins first, solo, on the main thread (instances 11, 12 are the twins of 1, 2)
+
+        def ctor(g, inst, th=None):
+            if kind[g] == "JitterRng":
+                o = [{"op": "timer", "t": inst, "readings": [u64(x) for x in tsc[g]], "cont": CONT},
+                     {"op": "jit_new", "g": inst, "t": inst}, {"op": "set_rounds", "g": inst, "r": 2}]
+            else:
+                mode, sd = seeds[g]
+                if mode == "zero":
+                    o = [{"op": "from_seed", "g": inst, "kind": kind[g], "seed": [0] * SEEDLEN[kind[g]]}]
+                elif mode == "u64zero":
+                    o = [{"op": "seed_from_u64", "g": inst, "kind": kind[g], "x": u64(0)}]
+                else:
+                    o = [{"op": "from_seed", "g": inst, "kind": kind[g], "seed": sd}]
+            if th is not None:
+                for x in o:
+                    if x["op"] != "timer":
+                        x["th"] = th
+            return o
+        for g in (1, 2):
+            N = words_needed(outs[g], WORDBYTES[kind[g]])
+            ops += ctor(g, 10 + g)
+            ops.append({"op": native_op(kind[g]), "g": 10 + g, "n": N, "role": "twin", "of": g})
+            if kind[g] == "SplitMix64":
+                ops += ctor(g, 20 + g)
+                ops.append({"op": "next_u32", "g": 20 + g, "n": N, "role": "twin32", "of": g})
+        ops.append({"op": "bg_start", "threads": 2, "kinds": [k for k in {k1, k2} if k != "JitterRng"] or ["Xoshiro256PlusPlus"]})
+        cnt = {1: 0, 2: 0}
+        for (g, t, what) in sc:
+            if what == "new":
+                ops += ctor(g, g, th=t)
+            else:
+                op, nn = outs[g][cnt[g]]
+                cnt[g] += 1
+                o = {"op": op, "g": g, "th": t}
+                if op == "fill_bytes":
+                    o["n"] = nn
+                ops.append(o)
+        ops.append({"op": "bg_stop"})
+        S.case("interleaving #%d %s|%s%s" % (ci, k1, k2, " same seed" if same_seed else ""), ops)
+    return S
